@@ -1,5 +1,5 @@
 (* KVM wire entry points: scanner / multi-index scanner on an explicit key list. *)
-From NR Require Import Lib.Base Lib.Wire KVM.Engine KVM.Keys KVM.Scan.
+From NR Require Import Lib.Base Lib.Wire KVM.Engine KVM.Keys KVM.Scan KVM.ScanSpec.
 Open Scope string_scope. Open Scope list_scope. Open Scope Z_scope.
 
 Definition idx_of_name (s : pystr) : idx :=
@@ -28,6 +28,14 @@ Definition run_scan (v : jv) : jv :=
   jv_of_sres (index_scanner ks (idx_of_name (as_str (jfield "index" v)))
                 (map mval_of_jv (as_arr (jfield "matches" v)))
                 (as_opt_int (jfield "since" v)) (as_opt_int (jfield "until" v)) member).
+Definition run_scanspec (v : jv) : jv :=
+  let ks := map as_str (as_arr (jfield "keys" v)) in
+  let member := match jfield "events" v with
+                | JArr l => (fun x => mem_bytes x (map as_str l))
+                | _ => (fun _ => true) end in
+  jv_of_sres (scan_spec ks (idx_of_name (as_str (jfield "index" v)))
+                (map mval_of_jv (as_arr (jfield "matches" v)))
+                (as_opt_int (jfield "since" v)) (as_opt_int (jfield "until" v)) member).
 Definition run_multi (v : jv) : jv :=
   let ks := map as_str (as_arr (jfield "keys" v)) in
   let stages := map (fun s => (idx_of_name (as_str (jfield "index" s)), map mval_of_jv (as_arr (jfield "matches" s))))
@@ -35,5 +43,5 @@ Definition run_multi (v : jv) : jv :=
   jv_of_sres (multi_scanner ks stages (as_opt_int (jfield "since" v)) (as_opt_int (jfield "until" v)) None).
 
 Definition suites : list (string * (jv -> jv)) :=
-  [("kvm.scan", run_scan); ("kvm.multi", run_multi)].
+  [("kvm.scan", run_scan); ("kvm.scanspec", run_scanspec); ("kvm.multi", run_multi)].
 Definition dispatch := dispatch_in suites.
